@@ -96,6 +96,7 @@ type State struct {
 	mapOps    []string
 	steps     int
 	retDirty  bool // the frame popped last had written to memory older than itself
+	recycled  []int // backing arrays handed back to a sync.Pool
 }
 
 func newState() *State {
@@ -131,6 +132,7 @@ func (s *State) clone() *State {
 		mapOps:    append([]string(nil), s.mapOps...),
 		steps:     s.steps,
 		retDirty:  s.retDirty,
+		recycled:  s.recycled,
 	}
 	if s.panicking != nil {
 		pi := *s.panicking
